@@ -1,4 +1,4 @@
-\* quick facet "fail": one channel that closes / loses its capability, the parameter flips, malformed and bad-encoder packets
+\* quick facet "fail": one channel that closes / loses its capability, the parameter flips, malformed and bad-encoder packets, handshake
 CONSTANTS
   Val = {v1, v2}
   Stranger = {}
@@ -25,6 +25,9 @@ CONSTANTS
   DsContSet = {}
   OsCodeSet = {}
   FeeSet = {}
+  DsEditSet = {}
+  OsEditSet = {}
+  TreasTry = {}
   HowSet = {"closed", "nocap"}
   FlipSet = {TRUE, FALSE}
   StepSet = {"init", "try"}
